@@ -8,16 +8,21 @@ import FeedVerif.Model.Mixin
 namespace FeedVerif.Mixin
 
 /-- the entries that are complete (not the one currently being filled) -/
-def older (s : MSt) : List Entry := if s.inentry then s.entries.drop 1 else s.entries
+def older (c : Core) : List Entry := if c.inentry then c.entries.drop 1 else c.entries
 
-theorem track_older (s : MSt) (p : Option Str) (u : Str) :
+@[simp] theorem updHead_drop (f : Entry → Entry) (l : List Entry) : (updHead f l).drop 1 = l.drop 1 := by
+  cases l <;> rfl
+@[simp] theorem updHead_tail (f : Entry → Entry) (l : List Entry) : (updHead f l).tail = l.tail := by
+  cases l <;> rfl
+
+theorem track_older (s : Core) (p : Option Str) (u : Str) :
     (trackNamespace s p u).entries = s.entries ∧ (trackNamespace s p u).inentry = s.inentry := by
   unfold trackNamespace
   simp only
   split <;> exact ⟨rfl, rfl⟩
 
 theorem foldl_track_older (attrs : List (Str × Str)) :
-    ∀ s : MSt, (attrs.foldl (fun st kv =>
+    ∀ s : Core, (attrs.foldl (fun st kv =>
       if (S "xmlns:").isPrefixOf kv.1 then trackNamespace st (some (kv.1.drop 6)) kv.2
       else if kv.1 == S "xmlns" then trackNamespace st none kv.2 else st) s).entries = s.entries ∧
     (attrs.foldl (fun st kv =>
@@ -38,30 +43,26 @@ theorem foldl_track_older (attrs : List (Str × Str)) :
         exact ⟨h2.1.trans h1.1, h2.2.trans h1.2⟩
       · exact ih s
 
-theorem startPre_older (o : Ops) (s : MSt) (tag : Str) (attrs : List (Str × Str)) :
-    (startPre o s tag attrs).1.entries = s.entries ∧ (startPre o s tag attrs).1.inentry = s.inentry := by
-  unfold startPre
-  simp only
-  have h := foldl_track_older (attrs.map (normAttr o.loose))
-  split
-  · split
+theorem startPre_older (o : Ops) (s : Core) (tag : Str) (attrs : List (Str × Str)) :
+    older (startPre o s tag attrs).1 = older s := by
+  have key : (startPre o s tag attrs).1.entries = s.entries ∧ (startPre o s tag attrs).1.inentry = s.inentry := by
+    unfold startPre
+    simp only
+    have h := foldl_track_older (attrs.map (normAttr o.loose))
+    split
+    · split
+      · exact ⟨(h _).1, (h _).2⟩
+      · exact ⟨(h _).1, (h _).2⟩
     · exact ⟨(h _).1, (h _).2⟩
-    · exact ⟨(h _).1, (h _).2⟩
-  · exact ⟨(h _).1, (h _).2⟩
+  unfold older; rw [key.1, key.2]
 
-@[simp] theorem updHead_drop (f : Entry → Entry) (l : List Entry) : (updHead f l).drop 1 = l.drop 1 := by
-  cases l <;> rfl
-@[simp] theorem updHead_tail (f : Entry → Entry) (l : List Entry) : (updHead f l).tail = l.tail := by
-  cases l <;> rfl
-
-theorem setContext_older (s : MSt) (k : Str) (v : V) :
-    older (setContext s k v) = older s ∧ (setContext s k v).inentry = s.inentry := by
+theorem setContext_older (s : Core) (k : Str) (v : V) : older (setContext s k v) = older s := by
   unfold setContext older
   by_cases hin : s.inentry = true
   · simp [hin]
   · simp [hin]
 
-theorem pop_older (o : Ops) (s : MSt) (el : Str) : older (pop o s el) = older s ∧ (pop o s el).inentry = s.inentry := by
+theorem pop_older (o : Ops) (s : MSt) (el : Str) : older (pop o s el).c = older s.c ∧ (pop o s el).c.inentry = s.c.inentry := by
   unfold pop
   split
   · exact ⟨rfl, rfl⟩
@@ -81,7 +82,7 @@ theorem pop_older (o : Ops) (s : MSt) (el : Str) : older (pop o s el) = older s 
             · exact ⟨rfl, rfl⟩
 
 /-- `_start_item` appends a fresh entry; the previously open one (if any) is thereby complete -/
-theorem newEntry_older (s t : MSt) (he : t.entries = {} :: s.entries) (hi : t.inentry = true) :
+theorem newEntry_older (s t : Core) (he : t.entries = {} :: s.entries) (hi : t.inentry = true) :
     ∃ pre, older t = pre ++ older s := by
   unfold older
   simp only [hi, ↓reduceIte, he, List.drop_succ_cons, List.drop_zero]
@@ -93,95 +94,95 @@ theorem newEntry_older (s t : MSt) (he : t.entries = {} :: s.entries) (hi : t.in
   · simp only [hs, Bool.false_eq_true, ↓reduceIte]
     exact ⟨[], by simp⟩
 
-theorem dispatch_older (s : MSt) (h : Str) (attrsD : List (Str × Str)) (s' : MSt)
-    (hd : dispatchStart s h attrsD = .ok s') : ∃ pre, older s' = pre ++ older s := by
-  unfold dispatchStart at hd
+theorem dispatch_older (s : Core) (h : Str) (attrsD : List (Str × Str)) (c' : Core) (pe : Option Elem)
+    (hd : dispatchCore s h attrsD = .ok (c', pe)) : ∃ pre, older c' = pre ++ older s := by
+  unfold dispatchCore at hd
   split at hd
   · injection hd with hd
     refine ⟨[], ?_⟩
-    rw [← hd]; split <;> rfl
+    split at hd <;> (injection hd with h1 _; rw [← h1]; simp [older])
   · split at hd
     · split at hd
       · cases hd
       · split at hd
-        · injection hd with hd; exact ⟨[], by rw [← hd]; rfl⟩
+        · injection hd with hd; injection hd with h1 _; exact ⟨[], by rw [← h1]; simp [older]⟩
         · split at hd
-          · injection hd with hd; refine ⟨[], ?_⟩; rw [← hd]; split <;> rfl
+          · injection hd with hd
+            refine ⟨[], ?_⟩
+            split at hd <;> (injection hd with h1 _; rw [← h1]; simp [older])
           · simp only at hd
-            split at hd
-            · split at hd
-              · injection hd with hd
-                rw [← hd]; exact newEntry_older s _ rfl rfl
-              · injection hd with hd
-                rw [← hd, (setContext_older _ _ _).1]
-                exact newEntry_older s _ rfl rfl
-            · injection hd with hd
-              rw [← hd]; exact newEntry_older s _ rfl rfl
+            injection hd with hd; injection hd with h1 _
+            rw [← h1]
+            split
+            · split
+              · exact newEntry_older s _ rfl rfl
+              · rw [setContext_older]; exact newEntry_older s _ rfl rfl
+            · exact newEntry_older s _ rfl rfl
     · split at hd
       · cases hd
       · simp only at hd
         split at hd
-        · injection hd with hd; exact ⟨[], by rw [← hd]; rfl⟩
-        · injection hd with hd; exact ⟨[], by rw [← hd, (setContext_older _ _ _).1]; simp⟩
+        · injection hd with hd; injection hd with h1 _; exact ⟨[], by rw [← h1]; simp⟩
+        · injection hd with hd; injection hd with h1 _; exact ⟨[], by rw [← h1, setContext_older]; simp⟩
+
+theorem endFinish_older (o : Ops) (c : Core) : older (endFinish o c) = older c := rfl
 
 theorem step_older (o : Ops) (s : MSt) (e : MEv) (s' : MSt) (h : mstep o s e = .ok s') :
-    ∃ pre, older s' = pre ++ older s := by
+    ∃ pre, older s'.c = pre ++ older s.c := by
   cases e with
   | start tag attrs =>
     simp only [mstep, startTag] at h
-    obtain ⟨pre, hp⟩ := dispatch_older _ _ _ s' h
-    have hs := startPre_older o s tag attrs
-    refine ⟨pre, ?_⟩
-    rw [hp]
-    unfold older
-    rw [hs.1, hs.2]
+    have hs := startPre_older o s.c tag attrs
+    cases hd : dispatchCore (startPre o s.c tag attrs).1 (handlerName (startPre o s.c tag attrs).1 tag) (startPre o s.c tag attrs).2 with
+    | error w => rw [hd] at h; simp [applyDispatch] at h
+    | ok r =>
+      obtain ⟨c', pe⟩ := r
+      obtain ⟨pre, hp⟩ := dispatch_older _ _ _ c' pe hd
+      rw [hd] at h
+      cases pe with
+      | none => simp only [applyDispatch, Outcome.ok.injEq] at h; rw [← h]; exact ⟨pre, by rw [hp, hs]⟩
+      | some el => simp only [applyDispatch, Outcome.ok.injEq] at h; rw [← h]; exact ⟨pre, by rw [hp, hs]⟩
   | stop tag =>
     simp only [mstep, endTag] at h
     split at h
-    · cases h
-    · rename_i s1 hr
-      injection h with h
-      have hb : older s' = older s1 := by rw [← h]; rfl
-      rw [hb]
-      split at hr
-      · injection hr with hr; exact ⟨[], by rw [← hr]; rfl⟩
-      · split at hr
-        · -- _end_item: the open entry is now complete
-          injection hr with hr
-          have hp := pop_older o s (S "item")
-          rw [← hr]
-          have e1 : older { (pop o s (S "item")) with inentry := false } = (pop o s (S "item")).entries := by simp [older]
-          rw [e1]
-          unfold older at hp ⊢
-          by_cases hin : s.inentry = true
-          · simp only [hin, ↓reduceIte, hp.2] at hp ⊢
-            cases hpe : (pop o s (S "item")).entries with
-            | nil => exact ⟨[], by rw [hpe] at hp; simpa using hp.1.symm⟩
-            | cons e es => exact ⟨[e], by rw [hpe] at hp; simpa using hp.1⟩
-          · have hin' : s.inentry = false := by simpa using hin
-            simp only [hin', Bool.false_eq_true, ↓reduceIte, hp.2] at hp ⊢
-            exact ⟨[], by simpa using hp.1⟩
-        · split at hr
-          · cases hr
-          · injection hr with hr; exact ⟨[], by rw [← hr, (pop_older o s _).1]; simp⟩
+    · injection h with h; rw [← h]; exact ⟨[], by simp [endFinish, older]⟩
+    · split at h
+      · -- _end_item: the open entry is now complete
+        injection h with h
+        have hp := pop_older o s (S "item")
+        rw [← h]
+        simp only [endFinish_older]
+        have e1 : older { (pop o s (S "item")).c with inentry := false } = (pop o s (S "item")).c.entries := by simp [older]
+        rw [e1]
+        unfold older at hp ⊢
+        by_cases hin : s.c.inentry = true
+        · simp only [hin, ↓reduceIte, hp.2] at hp ⊢
+          cases hpe : (pop o s (S "item")).c.entries with
+          | nil => exact ⟨[], by rw [hpe] at hp; simpa using hp.1.symm⟩
+          | cons e es => exact ⟨[e], by rw [hpe] at hp; simpa using hp.1⟩
+        · have hin' : s.c.inentry = false := by simpa using hin
+          simp only [hin', Bool.false_eq_true, ↓reduceIte, hp.2] at hp ⊢
+          exact ⟨[], by simpa using hp.1⟩
+      · split at h
+        · cases h
+        · injection h with h; rw [← h]; exact ⟨[], by simp [endFinish_older, (pop_older o s _).1]⟩
   | data t =>
     simp only [mstep] at h
     injection h with h
     refine ⟨[], ?_⟩
     rw [← h]
-    unfold handleData older
+    unfold handleData
     split <;> simp
   | ns p u =>
     simp only [mstep] at h
     injection h with h
     refine ⟨[], ?_⟩
     rw [← h]
-    have := track_older s p u
-    unfold older
-    rw [this.1, this.2]; simp
+    have := track_older s.c p u
+    simp [older, this.1, this.2]
 
 /-- lifted to every event sequence -/
-theorem run_older (o : Ops) (evs : List MEv) : ∀ s s', mrun o s evs = .ok s' → ∃ pre, older s' = pre ++ older s := by
+theorem run_older (o : Ops) (evs : List MEv) : ∀ s s', mrun o s evs = .ok s' → ∃ pre, older s'.c = pre ++ older s.c := by
   induction evs with
   | nil => intro s s' h; simp only [mrun] at h; injection h with h; exact ⟨[], by rw [h]; simp⟩
   | cons e rest ih =>
@@ -200,23 +201,23 @@ that were complete when the continuation started are still there, unchanged and 
 positions, when it ends.  (Entries are stored newest first, so "the first k entries" are the
 suffix.) -/
 theorem completed_entries_frozen (o : Ops) (s s' : MSt) (evs : List MEv)
-    (hdone : s.inentry = false) (hrun : mrun o s evs = .ok s') :
-    ∃ pre, s'.entries = pre ++ s.entries := by
+    (hdone : s.c.inentry = false) (hrun : mrun o s evs = .ok s') :
+    ∃ pre, s'.c.entries = pre ++ s.c.entries := by
   obtain ⟨pre, hp⟩ := run_older o evs s s' hrun
   unfold older at hp
   simp only [hdone, Bool.false_eq_true, ↓reduceIte] at hp
-  by_cases hin : s'.inentry = true
+  by_cases hin : s'.c.inentry = true
   · simp only [hin, ↓reduceIte] at hp
-    cases he : s'.entries with
+    cases he : s'.c.entries with
     | nil => rw [he] at hp; simp at hp; exact ⟨[], by simp [← hp.2]⟩
     | cons e es => rw [he] at hp; simp at hp; exact ⟨e :: pre, by simp [hp]⟩
-  · have : s'.inentry = false := by simpa using hin
+  · have : s'.c.inentry = false := by simpa using hin
     simp only [this, Bool.false_eq_true, ↓reduceIte] at hp
     exact ⟨pre, hp⟩
 
 /-- in particular the NUMBER of entries never decreases -/
 theorem entries_never_lost (o : Ops) (s s' : MSt) (evs : List MEv)
-    (hdone : s.inentry = false) (hrun : mrun o s evs = .ok s') : s.entries.length ≤ s'.entries.length := by
+    (hdone : s.c.inentry = false) (hrun : mrun o s evs = .ok s') : s.c.entries.length ≤ s'.c.entries.length := by
   obtain ⟨pre, hp⟩ := completed_entries_frozen o s s' evs hdone hrun
   rw [hp]; simp
 
@@ -227,9 +228,9 @@ def looseOps : Ops :=
 element, a third entry that is never closed) -/
 example :
     (match mrun looseOps
-        { entries := [⟨[(S "x_a", .s (S "2"))], []⟩, ⟨[(S "x_a", .s (S "1"))], []⟩], infeed := true }
+        { c := { entries := [⟨[(S "x_a", .s (S "2"))], []⟩, ⟨[(S "x_a", .s (S "1"))], []⟩], infeed := true } }
         [.stop (S "item"), .stop (S "nosuch"), .start (S "item") [], .start (S "x:b") [], .data (S "t"), .stop (S "channel")] with
-      | .ok s' => s'.entries.drop 1 == [⟨[(S "x_a", .s (S "2"))], []⟩, ⟨[(S "x_a", .s (S "1"))], []⟩]
+      | .ok s' => s'.c.entries.drop 1 == [⟨[(S "x_a", .s (S "2"))], []⟩, ⟨[(S "x_a", .s (S "1"))], []⟩]
       | .unmodelled _ => false) = true := by decide +kernel
 
 end FeedVerif.Mixin
